@@ -6,5 +6,5 @@ mkdir -p out/runall; rc=0
 for i in $ids; do ( ./check $i $tier > out/runall/$i.log 2>&1; echo $? > out/runall/$i.rc ) & 
   while [ $(jobs -r | wc -l) -ge 4 ]; do sleep 0.5; done
 done; wait
-for i in $ids; do r=$(cat out/runall/$i.rc); l=$(tail -1 out/runall/$i.log); if [ "$r" != 0 ]; then rc=1; echo "ALARM $i rc=$r"; grep "VIOLATION\|BROKEN\|UNDECIDED" out/runall/$i.log | head -5; fi; echo "$i: $l"; done
+for i in $ids; do r=$(cat out/runall/$i.rc); l=$(tail -1 out/runall/$i.log); if [ "$r" != 0 ] || grep -q "UNDECIDED\|BROKEN" out/runall/$i.log; then rc=1; echo "ALARM $i rc=$r"; grep "VIOLATION\|BROKEN\|UNDECIDED" out/runall/$i.log | head -5; fi; echo "$i: $l"; done
 exit $rc
